@@ -66,7 +66,7 @@ theorem C02_wrong_password (P : Prims) (hA : P.aead.Lawful) (w w' salt : Bytes) 
   | some p => exact Or.inr (Or.inr ⟨hkeq, p, rfl⟩)
   | none =>
     left
-    rw [passEncrypt_eq P w salt reads hwf] at h
+    rw [passEncrypt_eq_serialize P w salt reads hwf] at h
     simp only [] at h
     have hm : (encPassMagic ++ salt ++ serialize P.aead (P.kdf w salt) encPassMagic be64 0 (fileChunks reads)).take 4
         = encPassMagic := by
@@ -108,7 +108,7 @@ theorem keyedAead_lawful : keyedAead.Lawful where
     have hl : ((k ++ zeros 16).take 16).length = 16 := by simp [zeros]
     simp only [keyedAead, List.length_append, hl]
     rw [if_neg (by omega)]
-    simp [hl]
+    simp
   enc_length := by intro k n ad p _; simp [keyedAead, zeros]
   dec_sound := by
     intro k n ad c p _ h
